@@ -8,13 +8,21 @@ From Coq Require Import List NArith Bool String.
 Import ListNotations.
 From JR Require Import Conn Conn_Proofs.
 From JRGen Require Extracted.
+From JR Require Skeletons.
 Open Scope N_scope.
 
 (* the two repairs the theorems assume are in /repo's source right now *)
 Theorem c03_source_facts :
   Extracted.tryReconnect_marks_before_cif = true /\ Extracted.handleResponse_delete_guarded = true /\
   Extracted.callsites_closeInFlight = ["tryReconnect"; "handleWsConn"]%string /\
-  Extracted.callsites_tryReconnect = ["handleWsConn"; "handleWsConn"]%string.
+  Extracted.callsites_tryReconnect = ["handleWsConn"; "handleWsConn"]%string /\
+  (* the caller's retry loop is left in four ways only (request could not be handed over / foreign id / undecodable
+     result / the response is not a temporary connection error of a retry-tagged method) and otherwise sleeps the backoff
+     and goes round again: whether it goes on never depends on the caller's context *)
+  Extracted.retry_loop_leaves =
+    ["if err != nil: return"; "if !fn.notify && resp.ID != req.ID: return";
+     "if err := json.Unmarshal(resp.Result, val.Interface()); err != nil: return"; "if !retry: break"]%string /\
+  Extracted.retry_loop_tail = ["vhook(""call.retry"", fn.client, req.ID, attempt)"; "time.Sleep(b.next(attempt))"]%string.
 Proof. repeat split; reflexivity. Qed.
 
 (* orphan-freedom, for every trace (any fault sequence, any schedule, any number of callers, retries included):
@@ -67,6 +75,16 @@ Example c03_ex : exists s,
                        ExecDeleted 3 true; CallRecv 3 false; CallReturn 3 OGenuine] = Some s /\ no_orphan s = true.
 Proof. eexists. split; [vm_compute; reflexivity|reflexivity]. Qed.
 
+(* the functions this property's model is an abstraction of still have the control / locking / shared-state skeleton the
+   model was written against (Skeletons.v, by hand; Extracted.v, regenerated from /repo) *)
+Theorem c03_code_skeletons :
+  JRGen.Extracted.effects_handleResponse = JR.Skeletons.handleResponse /\
+  JRGen.Extracted.effects_closeInFlight = JR.Skeletons.closeInFlight /\
+  JRGen.Extracted.effects_tryReconnect = JR.Skeletons.tryReconnect /\
+  JRGen.Extracted.effects_handleWsConn = JR.Skeletons.handleWsConn.
+Proof. repeat split; reflexivity. Qed.
+
+Print Assumptions c03_code_skeletons.
 Print Assumptions c03_source_facts.
 Print Assumptions c03_no_orphan.
 Print Assumptions c03_window_closed.
